@@ -16,7 +16,7 @@ from pathlib import Path
 
 from .. import coq
 from ..core import REPO, Ctx
-from .c01_rules import RULES, Rule
+from .c01_rules import OPTIONAL_RULES, RULES, Rule
 
 NAN = float("nan")
 VALUES = {
@@ -46,6 +46,10 @@ VALUES = {
     "empty_list": [[]],
     "set_int": [set(), {1}, {1, 2, 3}],
     "tuple_int": [(), (1,), (1, 2)],
+    "frozenset_int": [frozenset(), frozenset({1, 2})],
+    "complex": [0j, 1 + 2j, complex(-0.0, 0.0)],
+    "memoryview": [memoryview(b"ab")],
+    "type": [int, str],
     "dict_str_int": [{}, {"a": 1}, {"a": 1, "b": 2}, {"b": 2, "a": 1}],
     "fs_name": ["exists.txt", "missing.txt", "dir", "dir/inner.txt"],
     "fs_existing": ["exists.txt", "dir/inner.txt"],
@@ -56,7 +60,7 @@ VALUES = {
 ANNOT = {"int": "int", "nat": "int", "bool": "bool", "opt_bool": "bool | None", "opt_int": "int | None", "float": "float", "finite_float": "float", "posfloat": "float",
          "str": "str", "str_fname": "str", "char": "str", "binstr": "str", "hexstr": "str", "isodate": "str", "bytes": "bytes", "bytearray": "bytearray",
          "list_int": "list[int]", "nonempty_list_int": "list[int]", "nonempty_list_float": "list[float]", "nonempty_list_str": "list[str]", "list_str": "list[str]",
-         "list_pair": "list[tuple[int, int]]", "list_list_int": "list[list[int]]", "empty_list": "list[Any]", "set_int": "set[int]", "tuple_int": "tuple[int, ...]",
+         "list_pair": "list[tuple[int, int]]", "list_list_int": "list[list[int]]", "empty_list": "list[Any]", "set_int": "set[int]", "tuple_int": "tuple[int, ...]", "frozenset_int": "frozenset[int]", "complex": "complex", "memoryview": "memoryview", "type": "type[Any]",
          "dict_str_int": "dict[str, int]", "fs_name": "str", "fs_existing": "str", "fs_path": "Path", "fs_path_txt": "Path", "fs_path_existing": "Path"}
 
 # checks whose own documentation says the rewrite is a heuristic / changes behaviour: outside
@@ -684,6 +688,10 @@ def run(ctx: Ctx) -> None:
     ALL = list(RULES)
     for r in RULES:
         ALL += variants(r)
+    have = {(r.code, norm(r.lhs), tuple(r.params.values())) for r in ALL}
+    for r in OPTIONAL_RULES:
+        if (r.code, norm(r.lhs), tuple(r.params.values())) not in have:
+            ALL.append(r)
     td = Path(tempfile.mkdtemp(prefix="c01-"))
     try:
         # ---- one lint run over all rule instances
